@@ -16,13 +16,31 @@ void Group::replaceEntities(const std::vector<T> &entities)
 {
     base::IGroup *ig = backend();
     ObjectType ot = objectToType<T>::value;
+    typedef typename objectToType<T>::backendType backend_type;
 
-    while (ig->entityCount(ot) > 0) {
-        ig->removeEntity(ig->getEntity<typename objectToType<T>::backendType>(0));
+    // remember the current members: a vector that is refused half way must leave them as they were
+    std::vector<std::shared_ptr<backend_type>> previous;
+    for (ndsize_t i = 0; i < ig->entityCount(ot); i++) {
+        previous.push_back(ig->getEntity<backend_type>(i));
     }
 
-    for (const auto &e : entities) {
-        ig->addEntity(e);
+    auto clear = [ig, ot] () {
+        while (ig->entityCount(ot) > 0) {
+            ig->removeEntity(ig->getEntity<backend_type>(0));
+        }
+    };
+
+    clear();
+    try {
+        for (const auto &e : entities) {
+            ig->addEntity(e);
+        }
+    } catch (...) {
+        clear();
+        for (const auto &e : previous) {
+            ig->addEntity(e);
+        }
+        throw;
     }
 }
 
